@@ -2,7 +2,7 @@
 # Re-run every kept seeded change against the current checks (quick tier): expect a VIOLATION from one of meta.detected_by.
 # usage: seedsweep.sh [parallel] > log
 cd /verif
-ls seeded | xargs -P ${1:-3} -I{} bash -c '
+ls -d seeded/*/ | xargs -n1 basename | xargs -P ${1:-3} -I{} bash -c '
   id={}; d=/verif/seeded/$id; props=$(python3 -c "import json;m=json.load(open(\"$d/meta.json\"));print(\",\".join(m[\"detected_by\"]) or m[\"breaks_property\"])")
   wt=/tmp/ss-$id; git -C /repo worktree add -q $wt HEAD || exit
   if ! (cd $wt && git apply $d/patch.diff 2>/dev/null); then echo "$id PATCH-DOES-NOT-APPLY"; git -C /repo worktree remove --force $wt; exit; fi
